@@ -789,10 +789,22 @@ func (g *Graph) Build(metaData *MetaData, varPool *VarPool) (*Injector, error) {
 		return nil, errors.New("no return value provider found")
 	}
 
+	// When the requested type is itself an injector argument no provider is
+	// needed at all and there are no statements to build.
+	hasProviderNode := false
+	for _, pool := range pools {
+		if len(pool) > 0 {
+			hasProviderNode = true
+			break
+		}
+	}
+
 	var err error
-	injector.Stmts, err = g.buildStmts(pools, nodeProvidedNodes, initialProvidedNodes)
-	if err != nil {
-		return nil, fmt.Errorf("build statements: %w", err)
+	if hasProviderNode {
+		injector.Stmts, err = g.buildStmts(pools, nodeProvidedNodes, initialProvidedNodes)
+		if err != nil {
+			return nil, fmt.Errorf("build statements: %w", err)
+		}
 	}
 
 	// Inject context.Context argument if async providers exist
